@@ -1,4 +1,5 @@
 """C08 - YUV->RGB->YUV is a lossless code round trip (by composition of the C01 and C02 lemmas)."""
+import os
 from vlib.check import Plan
 from vlib import native
 from props import yuvfam as Y
@@ -9,6 +10,10 @@ from props.C02 import add_q, add_k, add_we
 def plan(tier, seed):
     p = Plan()
     p.native = True
+    p.stubbing = True
+    p.modules.append(("yuvxyb-math/src/matrix.rs", open(os.path.join(os.path.dirname(__file__), "..", "harness", "math_stub.rs")).read()))
+    p.modules.append(("src/yuv.rs", open(os.path.join(os.path.dirname(__file__), "..", "harness", "yuv_unchecked.rs")).read()))
+    p.modules.append(("yuvxyb-math/src/lib.rs", open(os.path.join(os.path.dirname(__file__), "..", "harness", "math_stub_lib.rs")).read()))
     wcfgs = w_instances(tier, seed + 1)
     if tier != "thorough":
         wcfgs = wcfgs[::2]
@@ -28,10 +33,17 @@ def plan(tier, seed):
         for (T, bd, full, mi) in wcfgs:
             n, code = Y.w_decode(T, bd, full, mi)
             txt += code
-            hs.append(dict(name=n, family="W", timeout=1500, mem_gb=12, rkind="wd", cfg=(T, bd, full), mi=mi, replay=Y.replay_codes,
+            hs.append(dict(name=n, family="W", timeout=1500, mem_gb=28, rkind="wd", cfg=(T, bd, full), mi=mi, replay=Y.replay_codes,
                            obligation="W-lemma decode %s %d-bit %s %s (see C01)" % (T, bd, "full" if full else "limited", Y.MC_NAME[Y.MC_STD[mi]]),
                            sym="codes: all triples", covers=["mid-range output explored"]))
         txt = add_we(txt, hs, wcfgs)
+        for row in range(3):
+            n, code = Y.s_lemma(row)
+            txt += code
+            hs.append(dict(name=n, family="S", timeout=1500, mem_gb=10, replay=None,
+                           obligation="S-lemma row %d: the real Matrix::mul_arr is bit-identical to the straight-line f32 expression m0*p0 + (m1*p1 + m2*p2) (3 products, 2 sums; what the standard-model bound in the glue is about)" % row,
+                           sym="vector: every f32 in [-2,2]^3; the row's 3 coefficients on the fixed-point grid k/64, |k|<=128 (full-width coefficients make SAT prove the equivalence of two 24x24 multiplier circuits: >1500 s); other rows generic constants",
+                           covers=["non-trivial coefficients explored"]))
         txt += Y.EPILOGUE
         plan.modules.append(("src/yuv_rgb.rs", txt))
         plan.harnesses = hs
@@ -56,7 +68,8 @@ def plan(tier, seed):
     p.functions = ["everything listed under C01 and C02"]
     p.bounds = ["A- and Q-lemmas at every depth/range/storage; W-lemmas on %d of 140 instances (x2 directions)%s; glue: all 126 configurations, all real code triples (stronger than the property's exhaustive 8-bit + sampled 9..16-bit quantifier)" % (len(wcfgs), "" if tier == "thorough" else " (quick subset)")]
     p.outside = ["subsampled frames (the property is about 4:4:4)", "FMA build"]
-    p.assumptions = ["IEEE-754 standard model for the two dot products", "equality follows from |code - ideal| <= 0.5+eta (Q-lemma) and |ideal - k| <= 0.5-theta with theta > eta: two integers closer than 1 are equal (arithmetic, done in the glue)"]
+    p.assumptions = ["W-lemmas replace Matrix::mul_arr on both sides by one pure bit-mixing stand-in (they decide the wiring: which matrix, which inputs, in which order); that the real mul_arr is the 5-operation f32 expression is the S-lemma, proved for coefficient rows on the k/64 grid and every vector - mul_arr has no data-dependent control flow, so the same operation DAG is executed for full-width coefficients (argument, not a solver result)",
+                     "IEEE-754 standard model for the two dot products", "equality follows from |code - ideal| <= 0.5+eta (Q-lemma) and |ideal - k| <= 0.5-theta with theta > eta: two integers closer than 1 are equal (arithmetic, done in the glue)"]
     p.trusted += ["z3 4.8.12 (QF_LRA) cross-checked with cvc5 1.0"]
     return p
 
